@@ -5,7 +5,7 @@ from typing import Optional, Dict, Any, Sequence, Callable, Tuple, List, Union
 from mysql_mimic.charset import Collation, CharacterSet
 from mysql_mimic.constants import DEFAULT_SERVER_CAPABILITIES
 from mysql_mimic.errors import ErrorCode, get_sqlstate, MysqlError
-from mysql_mimic.prepared import PreparedStatement, REGEX_PARAM
+from mysql_mimic.prepared import PreparedStatement, find_params
 from mysql_mimic.results import NullBitmap, ResultColumn
 from mysql_mimic.types import (
     Capabilities,
@@ -529,8 +529,16 @@ def _interpolate_params(
             capabilities, client_charset, reader, parameter_count, stmt.param_buffers
         )
 
-        for _, value in params[: stmt.num_params]:
-            sql = REGEX_PARAM.sub(_encode_param_as_sql(value), sql, 1)
+        # Splice the literals in by position: a value is never rescanned for
+        # placeholders nor interpreted as a regex replacement template.
+        parts = []
+        last = 0
+        for position, (_, value) in zip(find_params(sql), params[: stmt.num_params]):
+            parts.append(sql[last:position])
+            parts.append(_encode_param_as_sql(value))
+            last = position + 1
+        parts.append(sql[last:])
+        sql = "".join(parts)
 
         query_attrs = {k: v for k, v in params[stmt.num_params :] if k is not None}
 
@@ -539,7 +547,8 @@ def _interpolate_params(
 
 def _encode_param_as_sql(param: Any) -> str:
     if isinstance(param, str):
-        return f"'{param}'"
+        escaped = param.replace("\\", "\\\\").replace("'", "''")
+        return f"'{escaped}'"
     if param is None:
         return "NULL"
     if param is True:
